@@ -82,9 +82,12 @@ func runWsAsync(c *Case) []string {
 	}
 	return runOps(c, func(op string, a []string) string {
 		switch op {
-		case "read":
+		case "read", "readb":
 			id := a[0]
 			b := make([]byte, 70000)
+			if op == "readb" {
+				b = make([]byte, atoi(a[1]))
+			}
 			s.AsyncNextMessage(b, func(err error, n int, mt websocket.MessageType) {
 				if err != nil {
 					events = append(events, fmt.Sprintf("cb=%s:err%d", id, loopErrClass(err)))
